@@ -776,3 +776,32 @@ impl Scope {
         Scope(scope::Scope::Top)
     }
 }
+
+/// Verification-only entry points (`--cfg cormacrelf_incremental_rs_verif`): read-only views
+/// of the engine for an external model checker. See `src/node/verif.rs`.
+#[cfg(cormacrelf_incremental_rs_verif)]
+impl IncrState {
+    /// Audits the engine's internal bookkeeping; returns one line per finding.
+    pub fn verif_audit(&self) -> Vec<String> {
+        self.inner.verif_audit()
+    }
+    /// Textual dump of every live node and of the state's queues.
+    pub fn verif_dump(&self) -> String {
+        self.inner.verif_dump()
+    }
+    /// Greatest height among nodes that are currently necessary (-1 if none).
+    pub fn verif_max_height_in_use(&self) -> i32 {
+        self.inner.verif_max_height_in_use()
+    }
+    /// Number of live nodes created on this state.
+    pub fn verif_live_node_count(&self) -> usize {
+        self.inner.verif_live_nodes().len()
+    }
+}
+
+#[cfg(cormacrelf_incremental_rs_verif)]
+impl<T: Value> Observer<T> {
+    pub fn verif_id(&self) -> usize {
+        self.internal.id().verif_usize()
+    }
+}
